@@ -96,6 +96,7 @@ class Engine(ExprMixin, CallMixin):
         self.max_paths = 4000
         self.npaths = 0
         self._names = {}
+        self._seqset = {}
 
     # ------------------------------------------------------------------ obligations
     def emit(self, st, goal, kind, node, label=""):
